@@ -313,3 +313,23 @@ pub fn edge_points(es: &[f64], quick: bool) -> Vec<[f64; 2]> {
     v.retain(|w| tfref::big::dd_valid_fast(w[0], w[1]));
     v
 }
+
+/// Relational operand pairs for two-argument entry points: for every x of `xs` the partners x itself, -x,
+/// 2x, x/2, the next double-double above and below x, x with its low word dropped / negated, 1 and -1.
+/// A shortcut keyed on `a == b`, `a == -b`, equal high words or a fixed ratio shows only on such pairs.
+pub fn relational_pairs(xs: &[[f64; 2]]) -> Vec<([f64; 2], [f64; 2])> {
+    let mut v = vec![];
+    for &x in xs {
+        if !(x[0].is_finite() && tfref::big::dd_valid_fast(x[0], x[1])) {
+            continue;
+        }
+        let mut ps: Vec<[f64; 2]> = vec![x, [-x[0], -x[1]], [2.0 * x[0], 2.0 * x[1]], [0.5 * x[0], 0.5 * x[1]], [x[0], 0.0], [x[0], -x[1]], [1.0, 0.0], [-1.0, 0.0]];
+        ps.extend(neighbourhood(x, &[1, 2]));
+        for p in ps {
+            if p[0].is_finite() && tfref::big::dd_valid_fast(p[0], p[1]) {
+                v.push((x, p));
+            }
+        }
+    }
+    v
+}
